@@ -486,7 +486,7 @@ func cfgExplainedByBlankDrop(src, f []byte) bool {
 
 // cfgStableEqual compares two compile results. Compile iterates over a Go map when it
 // resolves vars (cycle / unknown-var messages depend on the iteration order), so a mismatch is
-// only accepted as one when neither side can reproduce the other side's result in 24 further
+// only accepted as one when neither side can reproduce the other side's result in 8 further
 // runs each.
 func cfgStableEqual(left, right func() cfgCompiled) bool {
 	l, r := left(), right()
@@ -494,7 +494,7 @@ func cfgStableEqual(left, right func() cfgCompiled) bool {
 		return true
 	}
 	ls, rs := []cfgCompiled{l}, []cfgCompiled{r}
-	for i := 0; i < 24; i++ {
+	for i := 0; i < 8; i++ {
 		ls = append(ls, left())
 		rs = append(rs, right())
 	}
@@ -1025,7 +1025,8 @@ func cfgFeatures(src []byte, cfg *Config) (labels []string, nDirectives int, alt
 			if t.text == "match" && isVal(i+1) && isVal(i+2) && strings.HasPrefix(toks[i+1].text, "@") && strings.HasPrefix(toks[i+2].text, "@") {
 				L["multi-value-oneline"] = true
 			}
-			if i+1 < len(toks) && (toks[i+1].kind == tokIdent || toks[i+1].kind == tokString) && toks[i+1].pos.line != t.pos.line && cfgKeywords[t.text] && depth > 0 {
+			if i+1 < len(toks) && (toks[i+1].kind == tokIdent || toks[i+1].kind == tokString) && toks[i+1].pos.line != t.pos.line && cfgKeywords[t.text] && depth > 0 &&
+				t.text != "on" && t.text != "off" && i > 0 && toks[i-1].pos.line != t.pos.line && (toks[i-1].kind == tokLBrace || toks[i-1].kind == tokRBrace) {
 				// a directive whose first argument sits on the next line
 				L["value-on-next-line"] = true
 			}
